@@ -56,8 +56,8 @@ PeerAnswer(k) == /\ toPeer > 0 /\ toPeer' = toPeer - 1
                  /\ UNCHANGED <<wd, i, round, slot, acked, closed>>
 PeerIgnore == /\ toPeer > 0 /\ toPeer' = toPeer - 1 /\ Mode \in {"none", "any"}
               /\ UNCHANGED <<wd, i, round, slot, inq, acked, closed>>
-\* a duplicate / unsolicited success answer (bounded: at most two answers in flight)
-PeerDup == /\ Mode \in {"dup", "any"} /\ round > 0 /\ ~closed /\ Len(inq) < 2
+\* a duplicate / unsolicited success answer (bounded: at most three answers in flight)
+PeerDup == /\ Mode \in {"dup", "any"} /\ round > 0 /\ ~closed /\ Len(inq) < 3
            /\ inq' = Append(inq, "ok")
            /\ UNCHANGED <<wd, i, round, slot, toPeer, acked, closed>>
 Peer == PeerAnswer("ok") \/ PeerAnswer("fail") \/ PeerIgnore \/ PeerDup
